@@ -91,6 +91,10 @@ def gen(tier, seed):
                 ["pre: 1e-6 < xa < 1e6 and 1e-6 < xb < 1e6 and 1e-6 < xc < 1e6"],
                 "f(a->b) f(b->c) = f(a->c), f(a->a) = 1, f(a->b) f(b->a) = 1 for ARBITRARY positive %s table values, exponent %d" % (kind, e),
                 args="xa: float, xb: float, xc: float", timeout=120)
+    for k3, form in enumerate(("sys", "units", "uv", "dict", "str")):
+        u1, u2 = [("A", "B"), ("C", "D"), ("G", "J"), ("B", "K"), ("E", "H")][k3]
+        add("array_forms_%s" % form, "c06-array-forms", "array_convert_forms(ia, ib, %r, %r, %r, %r)" % (u1, u2, DIMS[(k3 + 3) % len(DIMS)] if DIMS[(k3 + 3) % len(DIMS)] != (0, 0, 0) else (1, -1, 0), form),
+            ["pre: 0 <= ia <= 3 and 0 <= ib <= 3"], "UnitArray.convert with a %s target agrees element-wise with the scalar conversion (lattice values incl. negative and zero)" % form, args="ia: int, ib: int", timeout=120)
     add("array_convert_3", "c06-array", "array_convert((x, y, z), 'B', 'D', (2, -1, 1))", ["pre: 1e-3 < x < 1e3 and 1e-3 < y < 1e3 and 1e-3 < z < 1e3"],
         "UnitArray.convert agrees element-wise with the scalar path (magnitudes realised at the numpy boundary)", args="x: float, y: float, z: float", timeout=20)
     return "\n".join(L), conds
